@@ -1090,6 +1090,9 @@ func (v *VMValue) AttrSet(ctx *Context, name string, val *VMValue) *VMValue {
 		return val
 	case VMTypeNativeObject:
 		od, _ := v.ReadNativeObjectData()
+		if od.AttrSet == nil {
+			return nil
+		}
 		od.AttrSet(ctx, name, val)
 		return val
 	}
@@ -1155,9 +1158,11 @@ func (v *VMValue) AttrGet(ctx *Context, name string) *VMValue {
 		return ret
 	case VMTypeNativeObject:
 		od, _ := v.ReadNativeObjectData()
-		ret := od.AttrGet(ctx, name)
-		if ret != nil {
-			return ret
+		if od.AttrGet != nil {
+			ret := od.AttrGet(ctx, name)
+			if ret != nil {
+				return ret
+			}
 		}
 	}
 
@@ -1208,6 +1213,10 @@ func (v *VMValue) ItemGet(ctx *Context, index *VMValue) *VMValue {
 		}
 	case VMTypeNativeObject:
 		od, _ := v.ReadNativeObjectData()
+		if od.ItemGet == nil {
+			ctx.Error = errors.New("此类型无法取下标")
+			return nil
+		}
 		ret := od.ItemGet(ctx, index)
 		if ret == nil {
 			ret = NewNullVal()
@@ -1237,6 +1246,10 @@ func (v *VMValue) ItemSet(ctx *Context, index *VMValue, val *VMValue) bool {
 		}
 	case VMTypeNativeObject:
 		od, _ := v.ReadNativeObjectData()
+		if od.ItemSet == nil {
+			ctx.Error = errors.New("此类型无法赋值下标")
+			return false
+		}
 		od.ItemSet(ctx, index, val)
 		if ctx.Error == nil {
 			return true
